@@ -169,11 +169,38 @@ pub fn bspldnev_single_dual2(
 
 /// A piecewise polynomial spline of given order and knot sequence.
 #[derive(Clone, Debug, Deserialize, Serialize)]
+#[serde(try_from = "PPSplineDataModel<T>")]
 pub struct PPSpline<T> {
     k: usize,
     t: Vec<f64>,
     c: Option<Array1<T>>,
     n: usize,
+}
+
+#[derive(Deserialize)]
+struct PPSplineDataModel<T> {
+    k: usize,
+    t: Vec<f64>,
+    c: Option<Array1<T>>,
+    n: usize,
+}
+
+impl<T> std::convert::TryFrom<PPSplineDataModel<T>> for PPSpline<T> {
+    type Error = String;
+
+    fn try_from(model: PPSplineDataModel<T>) -> Result<Self, Self::Error> {
+        let PPSplineDataModel { k, t, c, n } = model;
+        if t.len() < 2 || !zip(&t[1..], &t[..(t.len() - 1)]).all(|(a, b)| a >= b) {
+            return Err("`t` must be a non-decreasing knot sequence.".to_string());
+        }
+        if k > t.len() || n != t.len() - k {
+            return Err("`n` must equal the length of `t` less `k`.".to_string());
+        }
+        if c.as_ref().is_some_and(|c| c.len() != n) {
+            return Err("`c` must have length `n`.".to_string());
+        }
+        Ok(PPSpline { k, t, c, n })
+    }
 }
 
 impl<T> PPSpline<T> {
